@@ -51,11 +51,15 @@ def cases(tier, seed):
                                [rnd.choice(OUTAGES), rnd.choice(OUTAGES)]):
                     yield {"k": "reconnect", "gen": gen, "how": how, "tau": tau,
                            "outage": outage, "delta": rnd.choice(["none", "one", "all"]),
-                           "seed": rnd.randrange(1 << 30)}
+                           "seed": rnd.randrange(1 << 30),
+                           # an AC in an error episode: with a text, with the empty answer,
+                           # or with the error-text request never answered
+                           "err": rnd.choice([None, None, "text", "empty", "silent"])}
         for outage in OUTAGES:
             for delta in ("none", "one", "all"):
                 yield {"k": "reconnect", "gen": gen, "how": "hb", "tau": 0.0, "outage": outage,
-                       "delta": delta, "seed": rnd.randrange(1 << 30)}
+                       "delta": delta, "seed": rnd.randrange(1 << 30),
+                       "err": rnd.choice([None, "text", "empty", "silent"])}
     n = 40 if tier == "quick" else 15000
     for i in range(n):
         gaps = [rnd.choice([299.0, 300.5, 301.0, 900.25, 3000.25, 150.0, 10.0])
@@ -114,6 +118,14 @@ def run_reconnect(case):
             # must not itself change the console state in the "unchanged" scenarios
             knobs = C.Knobs(apply_commands=False)
         inst = C.default_installation(gen, 2, (2, 1))
+        err = case.get("err")
+        if err:
+            a0 = inst["acs"][0]["status"]
+            a0["error"] = 7
+            inst["errors"][a0["ac"]] = "E7 sensor" if err == "text" else None
+            if err == "silent":
+                knobs.silent_kinds = set(knobs.silent_kinds) | {"error_request"}
+            obs["error_episode_" + err] = 1
         w = AW.ModelWorld(gen, loop, net, log, inst, knobs)
         if await w.init_and_sync() is not True:
             out["init"] = False
